@@ -407,6 +407,7 @@ func (t *Template) parseBlock() Node {
 	var pipe Expression
 
 	name := t.expect(itemIdentifier, context, "name")
+	line := t.lex.lineNumber() // of the opening action, not of the {{end}} reached below
 	bplist := t.blockParametersList(true, context)
 
 	if t.peekNonSpace().typ != itemRightDelim {
@@ -422,7 +423,7 @@ func (t *Template) parseBlock() Node {
 		contentList, end = t.itemList(nodeEnd)
 	}
 
-	block := t.newBlock(name.pos, t.lex.lineNumber(), name.val, bplist, pipe, list, contentList)
+	block := t.newBlock(name.pos, line, name.val, bplist, pipe, list, contentList)
 	t.passedBlocks[block.Name] = block
 	return block
 }
@@ -450,6 +451,8 @@ func (t *Template) parseYield() Node {
 		t.unexpected(name, context, "block name")
 	}
 
+	line := t.lex.lineNumber() // of the opening action, not of the {{end}} of a yield with content
+
 	// parse block parameters
 	bplist = t.blockParametersList(false, context)
 
@@ -475,7 +478,7 @@ func (t *Template) parseYield() Node {
 		}
 	}
 
-	return t.newYield(name.pos, t.lex.lineNumber(), name.val, bplist, pipe, content, false)
+	return t.newYield(name.pos, line, name.val, bplist, pipe, content, false)
 }
 
 func (t *Template) parseInclude() Node {
